@@ -5,7 +5,9 @@ PD = "List[ProposedDelta]"
 
 # abstract store: apply_fn(gid, batch) returns a mapping or raises; every call is recorded in ghost `calls`,
 # its outcome in ghost `oks`
-R.funtype("ApplyFn", params=["gid", "batch"], returns="Dict[str, int]", raises="Exception",
+# the store's result mapping is untrusted: counts may be missing or None (a successful batch whose result cannot be
+# read must still count as the batch having been applied)
+R.funtype("ApplyFn", params=["gid", "batch"], returns="Dict[str, Optional[int]]", raises="Exception",
           effects_before=["calls.append((gid, list(batch)))"], effects=["oks.append(True)"], effects_exc=["oks.append(False)"])
 R.optobj("OptApplyFn", "ApplyFn")
 R.objtype("Store", {"apply_deltas": "OptApplyFn"})
